@@ -47,6 +47,7 @@ fn tok_run(a: &Args) -> Args {
     let mut runners: Vec<&'static Runner> = vec![base];
     let mut futs: Vec<Option<TokFut>> = Vec::new();
     let mut toks: Vec<Option<Token>> = Vec::new();
+    let mut kept: Vec<Option<TokFut>> = Vec::new();
     let mut counters: Vec<Arc<Count>> = Vec::new();
     let mut res: Args = Vec::new();
     let mut i = 0;
@@ -72,7 +73,9 @@ fn tok_run(a: &Args) -> Args {
                     match f.as_mut().poll(&mut cx) {
                         Poll::Ready(t) => {
                             toks[x] = Some(t);
-                            futs[x] = None;
+                            // the finished future is NOT dropped here: an accept loop may keep it in a local
+                            // (pin_mut!/Box::pin) while it awaits accept(); it must hold nothing that matters
+                            kept.push(futs[x].take());
                             ready = 1;
                         },
                         Poll::Pending => ready = 0,
@@ -97,6 +100,7 @@ fn tok_run(a: &Args) -> Args {
         row.extend(counters.iter().map(|c| c.0.load(Ordering::SeqCst) as u128));
         res.push(row);
     }
+    drop(kept);
     res
 }
 
